@@ -19,7 +19,7 @@ CLAIMED = {
   note="Trusted: symx value model and validated NumPy models (mean/std/percentile/sort/corrcoef); exp/log uninterpreted. Non-linear metrics are bounded one pair lower. Outside: IEEE rounding, vectors above the bound, tie order of np.argsort (unspecified in NumPy: such paths are inconclusive).",
   ref="3 C05"),
  "C01": dict(
-  text="Bounded model checking of the real Data.__init__/get_scores/_get_score/_apply_axis: 2 (thorough 3) in-memory inputs (+ variants: an input without observations, a climatology, an input with extra/reordered coverage) whose every obs/fcst/other cell is a symbolic real-or-NaN; for 5 field sets x 9-11 axis slices z3 proves on every feasible path that each input returns exactly the cases where every input has every requested quantity, in storage order with the stored values, that an obs-less input gets the shared obs, and that another input's forecast values never matter. A shared harness adds a quantity derived from ensemble members: the probability is the fraction of the valid members, and a case where an input has no valid member is dropped for every input.",
+  text="Bounded model checking of the real Data.__init__/get_scores/_get_score/_apply_axis: 2 (thorough 3) in-memory inputs (+ variants: an input without observations, a climatology, an input with extra/reordered coverage) whose every obs/fcst/other cell is a symbolic real-or-NaN; for 5 field sets x 9-11 axis slices z3 proves on every feasible path that each input returns exactly the cases where every input has every requested quantity, in storage order with the stored values, that an obs-less input gets the shared obs, and that another input's forecast values never matter. A shared harness adds a quantity derived from ensemble members: the probability is the fraction of the valid members, and a case where an input has no valid member is dropped for every input. Further variants: the last input stores the same coordinates in the opposite order; an obs-less input with differing coverage or order.",
   note="Trusted: symx value/array model, validated NumPy models. Inputs are in-memory Input objects (readers: C09/C10). Outside: more inputs/cells than the bound; +-inf literals (C04).",
   ref="3 C01"),
  "C02": dict(
@@ -35,19 +35,19 @@ CLAIMED = {
   note="Trusted: symx models; the netCDF4 variable is a stub (values + mask). Probabilistic fields with missing values are decided in C08. Outside: on-disk fill values, sizes above the bound.",
   ref="3 C04"),
  "C11": dict(
-  text="Bounded model checking of every compute_from_times/compute_from_leadtimes in verif/axis.py on one symbolic instant (any second) inside day windows around year ends and leap days (thorough: every day 1970-2100, the day number concretised by solver-driven forking, the second of day symbolic), of the partition of valid cases by every axis through Data on symbolic init times around 2023-12-31, and of the date/unixtime/datenum round trips for symbolic dates. Cyclic axes are also partitioned with three init times (non-contiguous buckets).",
+  text="Bounded model checking of every compute_from_times/compute_from_leadtimes in verif/axis.py on one symbolic instant (any second) inside day windows around year ends and leap days (thorough: every day 1970-2100, the day number concretised by solver-driven forking, the second of day symbolic), of the partition of valid cases by every axis through Data on symbolic init times around 2023-12-31, and of the date/unixtime/datenum round trips for symbolic dates. Cyclic axes are also partitioned with three init times (non-contiguous buckets); -x lat/lon/elev also with two stations sharing the coordinate.",
   note="Trusted: the calendar model (86400 s days; civil fields of a concrete day from the real datetime; date2num = days since 1970-01-01). Outside: leap seconds, times before 1970 for unixtime routes, strftime labels.",
   ref="3 C11"),
  "C14": dict(
-  text="Bounded model checking of the climatology branch of Data.get_scores: 1-2 inputs + climatology (also with reordered/extra coverage), subtract and divide; per cell z3 proves obs/fcst anomalies use the climatology forecast at the same coordinates, other fields are untouched, a case is present only if defined and never a non-finite number, identical cases for all inputs, the climatology is not a scored input/legend entry; and mae/rmse/bias/stderror under -c equal those with the climatology as an extra input. -c/-C together with -fcst FIELD / -obs FIELD removes the climatology from the designated fields.",
+  text="Bounded model checking of the climatology branch of Data.get_scores: 1-2 inputs + climatology (also with reordered/extra coverage), subtract and divide; per cell z3 proves obs/fcst anomalies use the climatology forecast at the same coordinates, other fields are untouched, a case is present only if defined and never a non-finite number, identical cases for all inputs, the climatology is not a scored input/legend entry; and mae/rmse/bias/stderror under -c equal those with the climatology as an extra input. -c/-C together with -fcst FIELD / -obs FIELD removes the climatology from the designated fields. Also decided: -c/-C together with -obsrange (the range applies to the measured observation), and together with a -tod / -d selection when the climatology stores its times in another order.",
   note="Trusted: symx models. Outside: sizes above the bound; -c/-C parsing (C13).",
   ref="3 C14"),
  "C15": dict(
-  text="Bounded model checking of all 14 aggregator classes + quantile levels along every axis of vectors (1..3/4) and 2x2(x2) arrays against textbook statistics; preaggregate_leadtime/_time on 3-4 grid points with symbolic spacing and symbolic window against the trailing-window definition (l-h, l]; and -T through Data for obs, fcst, ensemble members and ensemble-derived threshold/quantile fields. With two inputs on different grids both forecasts and observations are windowed on the grid of the input they are read from.",
+  text="Bounded model checking of all 14 aggregator classes + quantile levels along every axis of vectors (1..3/4) and 2x2(x2) arrays against textbook statistics; preaggregate_leadtime/_time on 3-4 grid points with symbolic spacing and symbolic window against the trailing-window definition (l-h, l]; and -T through Data for obs, fcst, ensemble members and ensemble-derived threshold/quantile fields. With two inputs on different grids both forecasts and observations are windowed on the grid of the input they are read from. The quick tier includes a 1x2x2 array along every axis (verif's arrays are 3-D).",
   note="Trusted: symx NumPy models (mean/median/percentile/std/sort), validated against NumPy. Outside: float32 rounding of the window array, unsorted grids, arrays above the bound.",
   ref="3 C15"),
  "C18": dict(
-  text="Bounded model checking over request histories: every sequence of 2 (thorough: 2 on a 10-request menu and 3 on one location) get_scores requests mixing single/multiple fields, axes All/No/Time/Location/Leadtime and both inputs, with and without -obsrange, on 2 inputs with symbolic real-or-NaN cells; z3 proves on every path that the last result equals a freshly built dataset's, earlier returned arrays are unaltered (real NumPy aliasing is executed, not modelled), inputs are unmodified and a repeated request repeats its answer.",
+  text="Bounded model checking over request histories: every sequence of 2 (thorough: 2 on a 10-request menu and 3 on one location) get_scores requests mixing single/multiple fields, axes All/No/Time/Location/Leadtime and both inputs, with and without -obsrange, on 2 inputs with symbolic real-or-NaN cells; z3 proves on every path that the last result equals a freshly built dataset's, earlier returned arrays are unaltered (real NumPy aliasing is executed, not modelled), inputs are unmodified and a repeated request repeats its answer. A further menu mixes fields of different kinds with equal parameters (p0.5 and q0.5).",
   note="Trusted: symx array model (views/aliasing are NumPy's own). Outside: longer histories, more cells.",
   ref="3 C18"),
  "C08": dict(
@@ -59,7 +59,7 @@ CLAIMED = {
   note="Trusted: builtin open() shadowed by an in-memory token file (the replay writes a real file and runs the real reader); calendar model for date columns. Outside: separators other than blanks, more rows than the bound.",
   ref="3 C09"),
  "C10": dict(
-  text="Partial. Bounded model checking of verif.input.Netcdf (every property getter, locations, variable metadata) over every subset of the 8 optional variable groups of a *stub* dataset with symbolic masked content: each attribute == clean(documented variable); get_input dispatch over all validity combinations; scripts/text2nc.main writes every array of the text input (symbolic) to the stub. With C09 this pins both readers to the same numbers. Variable metadata (name, units, x0, x1) for five combinations of the global attributes.",
+  text="Partial. Bounded model checking of verif.input.Netcdf (every property getter, locations, variable metadata) over every subset of the 8 optional variable groups of a *stub* dataset with symbolic masked content: each attribute == clean(documented variable); get_input dispatch over all validity combinations; scripts/text2nc.main writes every array of the text input (symbolic) to the stub. With C09 this pins both readers to the same numbers. Variable metadata (name, units, x0, x1) for five combinations of the global attributes. text2nc is run on an input that lists its thresholds and quantile levels in non-ascending order (column labels stay with their columns).",
   note="NOT decided: anything the NetCDF/HDF5 C library does (fill values on disk, float32 storage: 'exactly for float32-representable data'), 'detected from content' (is_valid_nc only tries to open the file), Comps files. netCDF4.Dataset is an in-memory stub in both the symbolic run and the replay.",
   ref="3 C10"),
  "C12": dict(
@@ -67,7 +67,7 @@ CLAIMED = {
   note="Trusted: symx models; print/open recorders. Formatting is decided for one representative model per path (realisation), said so in the evidence. Outside: terminal width, strftime of time labels beyond the real matplotlib on concrete times.",
   ref="3 C12"),
  "C13": dict(
-  text="Partial. Bounded model checking of the verif.driver.run argument loop with recorders at its boundary: 31 options x 3 positions each change exactly their documented slot (Data keyword / output attribute) with symbolic numeric values flowing through util.parse_numbers; --config == inline; util.parse_numbers/parse_dates on 6 vector shapes of symbolic decimal tokens against the comma/colon semantics (end point included, calendar-day stepping across month/year/leap boundaries); 21 malformed or out-of-range command lines are rejected with non-zero status. Whole arguments as character-class vectors (<= 4 / 5 characters) are decided against the documented grammar, and the --list-* options against what is common to two overlapping inputs.",
+  text="Partial. Bounded model checking of the verif.driver.run argument loop with recorders at its boundary: 31 options x 3 positions each change exactly their documented slot (Data keyword / output attribute) with symbolic numeric values flowing through util.parse_numbers; --config == inline; util.parse_numbers/parse_dates on 6 vector shapes of symbolic decimal tokens against the comma/colon semantics (end point included, calendar-day stepping across month/year/leap boundaries); 21 malformed or out-of-range command lines are rejected with non-zero status. Whole arguments as character-class vectors (<= 4 / 5 characters) are decided against the documented grammar, and the --list-* options against what is common to two overlapping inputs. Two options that write the same setting (-c / -C, an option given twice, the later one also from --config): the later one takes effect completely.",
   note="Trusted: get_input/Data/output actions are recording stubs here (their behaviour: C01-C12); arange/round models (validated). Outside: IEEE rounding of decimal grids, arbitrary-character argument strings (malformed syntax is decided on a fixed list of shapes), the effect of options on rendered plots (C17).",
   ref="3 C13"),
  "C16": dict(
@@ -83,7 +83,7 @@ CLAIMED = {
   note="This is the weakest claim: after the flags are decided the cells are concrete, so the solver only enumerates the feasible flag/option combinations (bounded configuration exploration, not value-level reasoning). NOT decided: output types that render (plot, map, rank, maprank, impact, mapimpact) and the diagrams' drawing code.",
   ref="3 C19"),
  "C20": dict(
-  text="Partial. Bounded model checking of scripts/accumulate.py (trailing sums for windows none/1..4 along lead time or time, incomplete windows missing, -i), scripts/ens2prob.py (cdf in [0,1] and non-decreasing in the threshold, quantiles non-decreasing in the level and within the ensemble range, PIT = fraction of members below the obs, missing where the obs is missing) and scripts/expandverif.py (each observation placed exactly where the valid time matches, symbolic init and lead times) run with the real argparse; times, lead times, location metadata and untouched fields are written unchanged. ens2prob is run with the thresholds in increasing and in another order.",
+  text="Partial. Bounded model checking of scripts/accumulate.py (trailing sums for windows none/1..4 along lead time or time, incomplete windows missing, -i), scripts/ens2prob.py (cdf in [0,1] and non-decreasing in the threshold, quantiles non-decreasing in the level and within the ensemble range, PIT = fraction of members below the obs, missing where the obs is missing) and scripts/expandverif.py (each observation placed exactly where the valid time matches, symbolic init and lead times) run with the real argparse; times, lead times, location metadata and untouched fields are written unchanged. ens2prob is run with the thresholds in increasing and in another order. The windowed sum must ask scipy.signal.convolve for the direct method (the automatic choice switches to the FFT on larger files, where one missing value spoils other windows): the method argument is recorded in both modes.",
   note="Trusted: get_input -> in-memory input, netCDF4 -> write recorder; scipy.signal.convolve(ones,'valid') and interp1d(kind='zero') are models under the engine (the replay uses SciPy). NOT decided: scripts/window.py, on-disk encoding.",
   ref="3 C20"),
 }
